@@ -336,7 +336,7 @@ impl Prop for C11P {
         vec![Profile::Chk, Profile::Wrap, Profile::Rel]
     }
     fn units(&self, tier: Tier) -> Vec<String> {
-        let n = tier.pick(4, 4);
+        let n = tier.pick(4, 5);
         let mut v = Vec::new();
         for (c, r) in shapes(n) {
             let nops = ops_for(c, r).len();
@@ -376,7 +376,7 @@ impl Prop for C11P {
             .into()
     }
     fn bound(&self, tier: Tier) -> String {
-        tier.pick("shapes up to 4x4, one fault per history", "shapes up to 4x4, up to two faults per history (every crash point of a second operation from a menu of 7)").into()
+        tier.pick("shapes up to 4x4, one fault per history", "shapes up to 5x5, up to two faults per history (every crash point of a second operation from a menu of 7)").into()
     }
     fn assumptions(&self) -> Vec<String> {
         vec![
